@@ -907,7 +907,7 @@ func reparamAll(bound []*Term, body *Term) []qversion {
 			if other {
 				continue
 			}
-			if f.c = linearOffset(f.idx, b); f.c != nil {
+			if f.c = linearOffset(f.idx, b, cur.bound); f.c != nil {
 				fl = append(fl, f)
 			}
 		}
@@ -979,101 +979,51 @@ func findIndexIte(body *Term) *Term {
 	return found
 }
 
-// linearOffset: if t == c + b for a closed term c, return c.
-func linearOffset(t, b *Term) *Term {
-	if t == b {
-		return mkInt(0)
+// linearOffset: if t == c + b for a term c not mentioning any variable of vars, return c.
+func linearOffset(t, b *Term, vars []*Term) *Term {
+	free := func(u *Term) bool {
+		if u.closed {
+			return true
+		}
+		for _, v := range vars {
+			if occurs(u, v) {
+				return false
+			}
+		}
+		return true
 	}
-	if t.closed {
+	var rec func(t *Term) *Term
+	rec = func(t *Term) *Term {
+		if t == b {
+			return mkInt(0)
+		}
+		if free(t) {
+			return nil
+		}
+		switch t.Op {
+		case OpAdd:
+			x, y := t.Args[0], t.Args[1]
+			if free(y) {
+				if c := rec(x); c != nil {
+					return mkAdd(c, y)
+				}
+			}
+			if free(x) {
+				if c := rec(y); c != nil {
+					return mkAdd(x, c)
+				}
+			}
+		case OpSub:
+			x, y := t.Args[0], t.Args[1]
+			if free(y) {
+				if c := rec(x); c != nil {
+					return mkSub(c, y)
+				}
+			}
+		}
 		return nil
 	}
-	switch t.Op {
-	case OpAdd:
-		x, y := t.Args[0], t.Args[1]
-		if y.closed {
-			if c := linearOffset(x, b); c != nil {
-				return mkAdd(c, y)
-			}
-		}
-		if x.closed {
-			if c := linearOffset(y, b); c != nil {
-				return mkAdd(x, c)
-			}
-		}
-	case OpSub:
-		x, y := t.Args[0], t.Args[1]
-		if y.closed {
-			if c := linearOffset(x, b); c != nil {
-				return mkSub(c, y)
-			}
-		}
-	}
-	return nil
-}
-
-// reparam: if a bound variable b occurs in array indices only as (c + b) for one closed
-// term c, quantify over the absolute index b' = c + b instead, so that every ground
-// select matches the quantifier's pattern.
-func reparam(bound []*Term, body *Term) ([]*Term, *Term) {
-	out := make([]*Term, len(bound))
-	copy(out, bound)
-	for bi, b := range bound {
-		forms := map[*Term]bool{}
-		seen := map[*Term]bool{}
-		ok := true
-		var walk func(t *Term)
-		walk = func(t *Term) {
-			if t.closed || seen[t] {
-				return
-			}
-			seen[t] = true
-			if t.Op == OpSelect || t.Op == OpStore {
-				idx := t.Args[1]
-				if !idx.closed && occurs(idx, b) {
-					forms[idx] = true
-				}
-			}
-			if len(t.Bound) > 0 {
-				for _, ib := range t.Bound {
-					if ib == b {
-						ok = false
-					}
-				}
-			}
-			for _, a := range t.Args {
-				walk(a)
-			}
-		}
-		walk(body)
-		if !ok || len(forms) != 1 {
-			continue
-		}
-		var f *Term
-		for k := range forms {
-			f = k
-		}
-		if f == b {
-			continue
-		}
-		// other bound variables must not occur in the index
-		other := false
-		for _, ob := range bound {
-			if ob != b && occurs(f, ob) {
-				other = true
-			}
-		}
-		if other {
-			continue
-		}
-		c := linearOffset(f, b)
-		if c == nil {
-			continue
-		}
-		nb := mkBound("k", b.Sort)
-		body = subst(body, map[*Term]*Term{f: nb, b: mkSub(nb, c)})
-		out[bi] = nb
-	}
-	return out, body
+	return rec(t)
 }
 
 func occurs(t, v *Term) bool {
